@@ -30,6 +30,7 @@ ASSUMPTIONS = [
     "steps after numerical exhaustion of the candidates are not judged here (known finding K2 of C01)",
     "the oracle's Gram/covariance algebra (numpy matmul, eigh) is trusted",
 ]
+RULE = RULE + " " + forms.RULE_SUFFIX
 
 KINDS = ("gauss", "lattice", "lattice", "near_lattice", "clustered", "dup_rows", "dup_cols", "scaled", "lowrank", "uniform", "collinear")
 
